@@ -63,6 +63,9 @@ def cells(tier, seed):
         for sub, qobj in itertools.product(subsets, ["g0"] if tier == "quick" else ["g0", "prior", "nearsingular"]):
             out.append({"what": "objective", "strategy": strat, "lik": lik, "dist": "Cholesky", "objective": obj, "priors": pri,
                         "added": add, "subset": sub, "q": qobj})
+            if pri and not add and (tier == "thorough" or sub in (subsets[0], subsets[-1])):
+                out.append({"what": "objective", "strategy": strat, "lik": lik, "dist": "Cholesky", "objective": obj, "priors": 2,
+                            "added": add, "subset": sub, "q": qobj})
     for what, strat, lik, jit, q in itertools.product(["bound", "ngd"], ["Variational", "Unwhitened"], ["Gaussian", "FixedNoise"],
                                                       ["default", "1e-10"], QNAMES):
         out.append({"what": what, "strategy": strat, "lik": lik, "dist": "Cholesky" if what == "bound" else "Natural",
@@ -233,6 +236,8 @@ class Model(gpytorch.models.ApproximateGP):
         self.mean_module = gpytorch.means.LinearMean(d)
         lp = GammaPrior(*PRIOR_SPEC["lengthscale"][1:]) if priors else None
         op = LogNormalPrior(*PRIOR_SPEC["outputscale"][1:]) if priors else None
+        if priors == 2:
+            op = lp   # ONE prior object registered on two parameters: it contributes once per parameter
         self.covar_module = gpytorch.kernels.ScaleKernel(gpytorch.kernels.RBFKernel(ard_num_dims=d, lengthscale_prior=lp),
                                                          outputscale_prior=op)
         if added:
@@ -271,7 +276,7 @@ class Setup:
         self.strat, self.kind = cell["strategy"], cell["dist"]
         self.whitened = self.strat == "Variational"
         pri = bool(cell.get("priors"))
-        self.model = Model(self.strat, self.kind, Z, pri, bool(cell.get("added")))
+        self.model = Model(self.strat, self.kind, Z, cell.get("priors") or 0, bool(cell.get("added")))
         if cell["lik"] == "Gaussian":
             self.lik = GaussianLikelihood(noise_prior=GammaPrior(*PRIOR_SPEC["noise"][1:]) if pri else None)
             self.lik.noise = hyp["s2"]
@@ -351,7 +356,7 @@ class Setup:
             vals["noise"] = self.lik.noise.detach().reshape(-1).tolist()
         tot = 0.0
         for name, xs in vals.items():
-            fam, a, b = PRIOR_SPEC[name]
+            fam, a, b = PRIOR_SPEC["lengthscale" if (self.cell.get("priors") == 2 and name == "outputscale") else name]
             for x in xs:
                 tot += float(RP.logpdf_gamma(x, a, b) if fam == "gamma" else RP.logpdf_lognormal(x, a, b))
         return tot
